@@ -64,7 +64,7 @@ def main():
             verdict = "caught" + (" (no failing input)" if r.get("no_failing_input") else "") if r.get("check_exit") == 1 else "MISSED" if r.get("check_exit") == 0 else "error"
             print("%s/%s: %s; suite: %s; demo %s/%s" % (pid, k, verdict, r.get("suite"), r.get("demo_changed"), r.get("demo_clean")), flush=True)
     os.makedirs(os.path.join(ROOT, "out"), exist_ok=True)
-    with open(os.path.join(ROOT, "out", "seeded_results.json"), "w") as f:
+    with open(os.path.join(ROOT, "out", "seeded_results_seed%s.json" % os.environ.get("VERIF_SEED", "0")), "w") as f:
         json.dump(res, f, indent=1)
     missed = [k for k, r in res.items() if r.get("check_exit") != 1]
     print("%d seeded changes, %d not caught" % (len(res), len(missed)))
